@@ -778,7 +778,7 @@ impl Check for C12 {
     }
     fn scenarios(&self, tier: Tier) -> u64 {
         match tier {
-            Tier::Quick => 160,
+            Tier::Quick => 240,
             Tier::Thorough => 8000,
         }
     }
